@@ -376,20 +376,26 @@ theorem spanLoop_bracket (R : Bytes) (lv : Level) (hdir : ∀ z ∈ lv.spanStack
 
 /-! ### per-decoder facts -/
 
+/-- the effective "inside a preformatted block" test of `scan` (after the entry steps) -/
+def EffPre (L : Level) : Prop := L.mask.getLsbD 0 = true ∧ L.clearMask.getLsbD 0 = false
+
 /-- everything that holds of one decoder's masks and span stack between calls -/
 structure LvGood (L : Level) : Prop where
   inv : LvInv L
   endc : EndCons L.mask
   stack : StackOK L
   nodup : L.spanStack.Nodup
+  /-- inside a preformatted block no span is open -/
+  preEmpty : EffPre L → L.spanStack = []
 
 theorem LvGood_init : LvGood {} :=
-  ⟨by simp [LvInv, allDir, StartCons], by simp [EndCons], by intro b hb; simp at hb, by simp⟩
+  ⟨by simp [LvInv, allDir, StartCons], by simp [EndCons], by intro b hb; simp at hb, by simp, fun _ => rfl⟩
 
 theorem LvGood_of_fields {L L' : Level} (h : LvGood L) (hm : L'.mask = L.mask) (hc : L'.clearMask = L.clearMask)
     (hs : L'.spanStack = L.spanStack) : LvGood L' := by
-  obtain ⟨h1, h2, h3, h4⟩ := h
-  refine ⟨LvInv_of_fields h1 hm hc, by rw [hm]; exact h2, ?_, by rw [hs]; exact h4⟩
+  obtain ⟨h1, h2, h3, h4, h5⟩ := h
+  refine ⟨LvInv_of_fields h1 hm hc, by rw [hm]; exact h2, ?_, by rw [hs]; exact h4,
+    fun he => by rw [hs]; exact h5 (by unfold EffPre at he ⊢; rw [← hm, ← hc]; exact he)⟩
   intro b hb
   rw [hs] at hb
   rw [hm, hc]
@@ -400,13 +406,20 @@ theorem LvGood_of_empty {L : Level} (hi : LvInv L) (hs : L.spanStack = [])
     (he : L.mask.getLsbD 11 = false ∧ L.mask.getLsbD 13 = false ∧ L.mask.getLsbD 15 = false ∧
       L.mask.getLsbD 17 = false) : LvGood L :=
   ⟨hi, by obtain ⟨a, b, c, d⟩ := he; unfold EndCons; rw [a, b, c, d]; simp,
-    by intro b hb; simp [hs] at hb, by simp [hs]⟩
+    by intro b hb; simp [hs] at hb, by simp [hs], fun _ => hs⟩
 
 /-- the state after the entry steps: no directive bit, nothing scheduled, stack facts kept -/
 structure EntryGood (L : Level) : Prop where
   clean : Clean L
   stack : StackOK L
   nodup : L.spanStack.Nodup
+  preEmpty : EffPre L → L.spanStack = []
+
+theorem normLevel_effPre {L : Level} (h : EffPre (normLevel L)) : EffPre L := by
+  obtain ⟨h1, _⟩ := h
+  unfold normLevel at h1
+  unfold EffPre
+  by_cases hl : L.lastNewline = true <;> simp [hl, andNot, BlockQuote] at h1 <;> simp [h1]
 
 theorem styleIdx_range (b : UInt8) : styleIdx b = 2 ∨ styleIdx b = 3 ∨ styleIdx b = 4 ∨ styleIdx b = 5 := by
   unfold styleIdx
@@ -417,7 +430,9 @@ theorem styleIdx_range (b : UInt8) : styleIdx b = 2 ∨ styleIdx b = 3 ∨ style
     · split <;> simp
 
 theorem normLevel_entryGood {L : Level} (h : LvGood L) : EntryGood (normLevel L) := by
-  refine ⟨normLevel_clean h.inv, ?_, ?_⟩
+  refine ⟨normLevel_clean h.inv, ?_, ?_, fun he => by
+    have hs : (normLevel L).spanStack = L.spanStack := by unfold normLevel; split <;> rfl
+    rw [hs]; exact h.preEmpty (normLevel_effPre he)⟩
   · intro b hb
     have hs : (normLevel L).spanStack = L.spanStack := by unfold normLevel; split <;> rfl
     rw [hs] at hb
@@ -440,7 +455,7 @@ theorem entryLv_entryGood {reset : Bool} {L : Level} (h : LvGood L) : EntryGood 
 theorem EntryGood.good {L : Level} (h : EntryGood L) : LvGood L :=
   ⟨clean_inv h.clean, by
     obtain ⟨h1, _⟩ := h.clean
-    simp_all [EndCons, allDir], h.stack, h.nodup⟩
+    simp_all [EndCons, allDir], h.stack, h.nodup, h.preEmpty⟩
 
 
 /-! ### the chain of decoders -/
@@ -455,9 +470,6 @@ theorem stacks_map_reset (l : List Level) : stacks (l.map resetLevel) = stacks l
   induction l with
   | nil => rfl
   | cons a l ih => simp only [List.map_cons, stacks_cons, ih]; rfl
-
-/-- the effective "inside a preformatted block" test of `scan` (after the entry steps) -/
-def EffPre (L : Level) : Prop := L.mask.getLsbD 0 = true ∧ L.clearMask.getLsbD 0 = false
 
 /-- a decoder inside a preformatted block has no inner decoder -/
 def PreLast : Level → List Level → Prop
@@ -712,11 +724,26 @@ theorem stepOK_finish {lv : Level} {inner : List Level} {R : Bytes} {x : Out × 
 
 /-! ### one call of the span scanner / block scanner on the whole unread input -/
 
-theorem scanSpan_bracket {L : Level} (R : Bytes) (he : EntryGood L) (hcl : Closable L.spanStack R) :
+theorem spanEffect_effPre {L L' : Level} (h : SpanEffect L L') (he : EffPre L') : EffPre L := by
+  obtain ⟨h1, h2⟩ := he
+  rcases h with rfl | ⟨b, _, hb, rfl⟩ | ⟨b, hb, _, rfl⟩
+  · exact ⟨h1, h2⟩
+  · unfold EffPre
+    rcases isDirective_cases hb with rfl | rfl | rfl | rfl <;>
+      simp_all [closeSpan, bitsOf, star, under, tick, tilde,
+        SpanStrong, SpanStrongEnd, SpanEmph, SpanEmphEnd, SpanStrike, SpanStrikeEnd, SpanPre, SpanPreEnd]
+  · unfold EffPre
+    rcases isDirective_cases hb with rfl | rfl | rfl | rfl <;>
+      simp_all [openSpan, bitsOf, star, under, tick, tilde,
+        SpanStrong, SpanStrongStart, SpanEmph, SpanEmphStart, SpanStrike, SpanStrikeStart, SpanPre, SpanPreStart]
+
+theorem scanSpan_bracket {L : Level} (R : Bytes) (he : EntryGood L) (hcl : Closable L.spanStack R)
+    (hnp : ¬EffPre L) :
     BracketPost L.spanStack (scanSpan L R true).2 R (scanSpan L R true).1 ∧ LvGood (scanSpan L R true).2 := by
   have hb := spanLoop_bracket R L (fun z hz => (he.stack z hz).1) he.nodup hcl R 0 [] none 0
     (by simp) rfl (by simp) (by simp) (by intro; decide) (by intro s hs; cases hs)
-  refine ⟨hb, spanEffect_inv he.clean (scanSpan_effect _ _ _), ?_, ?_, hb.nodup⟩
+  refine ⟨hb, spanEffect_inv he.clean (scanSpan_effect _ _ _), ?_, ?_, hb.nodup,
+    fun h => absurd (spanEffect_effPre (scanSpan_effect _ _ _) h) hnp⟩
   · exact (scanSpan_endCons R true he.clean he.stack he.nodup).1
   · exact (scanSpan_endCons R true he.clean he.stack he.nodup).2
 
@@ -738,7 +765,8 @@ def preStartLevel (L : Level) : Level :=
            clearMask := L.clearMask ||| BlockPreStart }
 
 /-- the block-start part of `scan` on a decoder without open spans -/
-theorem scanBlock_bracket {L : Level} (R : Bytes) (hne : R ≠ []) (he : EntryGood L) (hs : L.spanStack = []) :
+theorem scanBlock_bracket {L : Level} (R : Bytes) (hne : R ≠ []) (he : EntryGood L) (hs : L.spanStack = [])
+    (hnp : ¬EffPre L) :
     ∃ a t, (scanBlock L R true).1 = .tok a t ∧ t = R.take a ∧
       Closable (scanBlock L R true).2.spanStack (R.drop a) ∧
       ((scanBlock L R true).2.spanStack ≠ [] → nl ∉ t) ∧
@@ -771,8 +799,8 @@ theorem scanBlock_bracket {L : Level} (R : Bytes) (hne : R ≠ []) (he : EntryGo
       unfold scanBlock
       simp [hf]
     rw [heq]
-    have heH : EntryGood ({ L with hasRun := true } : Level) := ⟨⟨hc1, hc2⟩, he.stack, he.nodup⟩
-    have ⟨hb, hg⟩ := scanSpan_bracket R heH (by show Closable L.spanStack R; rw [hs]; trivial)
+    have heH : EntryGood ({ L with hasRun := true } : Level) := ⟨⟨hc1, hc2⟩, he.stack, he.nodup, he.preEmpty⟩
+    have ⟨hb, hg⟩ := scanSpan_bracket R heH (by show Closable L.spanStack R; rw [hs]; trivial) hnp
     obtain ⟨⟨a, t, h1, h2, h3, h4⟩, _, _⟩ := hb
     have heff := scanSpan_effect ({ L with hasRun := true } : Level) R true
     refine ⟨a, t, h1, h2, h3, fun h => h4 (Or.inr h), hg, ?_, heff.qs.2.2, heff.qs.1⟩
@@ -859,9 +887,10 @@ theorem scanRel_bracket {R : Bytes} {reset : Bool} {lv : Level} {inner : List Le
     rw [hie]
     have he := entryLv_entryGood (reset := reset) hg.good.1
     have hcl : Closable (entryLv reset lv00).spanStack R := by rw [hstk]; exact hg.path.1
-    obtain ⟨⟨⟨a, t, h1, h2, h3, h4⟩, hnd, hdir⟩, hgood⟩ := scanSpan_bracket R he hcl
-    have heff := scanSpan_effect (entryLv reset lv00) R true
     have hSe : (entryLv reset lv00).spanStack ≠ [] := by rw [hstk]; exact hS
+    obtain ⟨⟨⟨a, t, h1, h2, h3, h4⟩, hnd, hdir⟩, hgood⟩ :=
+      scanSpan_bracket R he hcl (fun h' => hSe (he.preEmpty h'))
+    have heff := scanSpan_effect (entryLv reset lv00) R true
     refine ⟨⟨a, t, h1, h2, ⟨⟨hgood, by simp⟩, ?_, trivial, ?_⟩, ?_⟩, ?_, ?_⟩
     · -- ChainOK: the decoder is not started (it has no inner decoder)
       show (scanSpan (entryLv reset lv00) R true).2.quoteStarted = false
@@ -999,7 +1028,7 @@ theorem scanRel_bracket {R : Bytes} {reset : Bool} {lv : Level} {inner : List Le
       | true => rw [hst hq']; rfl
     have hbefore : stacks (lv00 :: inner0) = [] := by rw [stacks_cons, hS, hcl]; rfl
     have he := entryLv_entryGood (reset := reset) hg.good.1
-    obtain ⟨a, t, h1, h2, h3, h4, h5, h6, h7, h8⟩ := scanBlock_bracket R hne he hSe
+    obtain ⟨a, t, h1, h2, h3, h4, h5, h6, h7, h8⟩ := scanBlock_bracket R hne he hSe (entryLv_not_effPre hp)
     have hqf : (scanBlock (entryLv reset lv00) R true).2.quoteStarted = false := by
       rw [h8]
       cases hq' : (entryLv reset lv00).quoteStarted with
